@@ -144,13 +144,38 @@ def order_positions(tree: exp.Expr) -> list[int] | None:
     return out
 
 
+def order_is_total(tree: exp.Expr) -> bool:
+    """True when the outermost ORDER BY names (by ordinal or output name) EVERY output column among its keys:
+    the order is then total up to identical rows, whatever other expression keys precede them."""
+    q = tree
+    while isinstance(q, exp.Subquery):
+        q = q.this
+    order = q.args.get("order") if isinstance(q, exp.Query) else None
+    if not order:
+        return False
+    try:
+        names = [s.alias_or_name for s in q.selects]
+    except Exception:
+        return False
+    covered = set()
+    for o in order.expressions:
+        k = o.this
+        if isinstance(k, exp.Literal) and k.is_int:
+            covered.add(int(k.this) - 1)
+        elif isinstance(k, exp.Column) and not k.table and k.name in names and names.count(k.name) == 1:
+            covered.add(names.index(k.name))
+    return covered >= set(range(len(names))) and len(names) > 0
+
+
 def has_limit(tree: exp.Expr) -> bool:
     return any(n.args.get("limit") or n.args.get("offset") for n in tree.find_all(exp.Query))
 
 
-def compare_results(ref_rows, got_rows, order_pos) -> str | None:
-    """None if equivalent; otherwise a short reason. order_pos: see order_positions."""
+def compare_results(ref_rows, got_rows, order_pos, total: bool = False) -> str | None:
+    """None if equivalent; otherwise a short reason. order_pos: see order_positions; total: see order_is_total."""
     a, b = norm_rows(ref_rows), norm_rows(got_rows)
+    if total and a != b and Counter(a) == Counter(b):
+        return "same rows, different sequence under a total ORDER BY"
     if Counter(a) != Counter(b):
         return "different rows"
     if order_pos:
